@@ -18,7 +18,7 @@
 (***************************************************************************)
 EXTENDS Integers, Sequences, FiniteSets, TLC, Json, Bitwise
 
-CONSTANTS SmallBound, SmallShift, SmallShrCount, Range, ClassSet, CoreSet
+CONSTANTS SmallBound, SmallShift, SmallShrCount, Range, ClassSet, CoreSet, AliasSet
 
 VARIABLE row
 
@@ -114,7 +114,12 @@ LawUn(op, a) ==
         /\ (I!Fits(a) /\ op = "INVERT") => (r.f <=> ~I!Fits(-a - 1)) /\
                                            (~r.f => Val18(2, LimbsOp("XOR", Digits(a, 2, 18), Digits(-1, 2, 18), 1)) = r.v)
 
-Laws == CASE row.kind = "bin" -> LawBin(row.op, row.a, row.b)
+\* stack transformer of a binary opcode and its frame law (kept copies a, b below the operands are unchanged)
+StackStep(op, stk) == LET n == Len(stk) r == I!ResArith(op, stk[n - 1], stk[n])
+                      IN IF r.f THEN <<>> ELSE Append(SubSeq(stk, 1, n - 2), r.v)
+LawFrame(op, a, b) == LET s == StackStep(op, <<a, b, a, b>>)
+                      IN s # <<>> => (I!Kept(a, s[1]) /\ I!Kept(b, s[2]) /\ Len(s) = 3)
+Laws == CASE row.kind = "bin" -> LawBin(row.op, row.a, row.b) /\ LawFrame(row.op, row.a, row.b)
           [] row.kind = "bit" -> LawBit(row.op, row.a, row.b)
           [] row.kind = "un"  -> LawUn(row.op, row.a)
           [] OTHER -> LET r == I!ResWithin(row.a, row.b, row.c)
@@ -135,6 +140,9 @@ InitRows ==
     \/ row \in [kind : {"bin"}, op : I!BinOps, a : ClassSet, b : ClassSet]
     \/ row \in [kind : {"un"}, op : I!UnOps, a : ClassSet]
     \/ row \in [kind : {"within"}, op : {"WITHIN"}, a : CoreSet, b : CoreSet, c : CoreSet]
+    \* "operands are values" rows: a second reference to each operand is kept (DUP / alt stack / array element)
+    \/ row \in [kind : {"alias"}, op : I!BinOps, a : AliasSet, b : AliasSet, keep : {"dup", "alt", "arr"}]
+    \/ row \in [kind : {"alias"}, op : I!UnOps, a : AliasSet, keep : {"dup", "alt", "arr"}]
 RowOut == PrintT(<<"ROW", ToJson(row)>>)
 
 Stutter == UNCHANGED row
@@ -197,6 +205,16 @@ ClassesQuick == {
   [n |-> "64", s |-> 0, k |-> 0, d |-> 64],
   [n |-> "256", s |-> 0, k |-> 0, d |-> 256],
   [n |-> "257", s |-> 0, k |-> 0, d |-> 257] }
+ClassesAlias == {
+  [n |-> "1", s |-> 0, k |-> 0, d |-> 1],
+  [n |-> "64", s |-> 0, k |-> 0, d |-> 64],
+  [n |-> "MaxI64+1", s |-> 1, k |-> 63, d |-> 0],
+  [n |-> "MinI64-1", s |-> -1, k |-> 63, d |-> -1],
+  [n |-> "-2^64", s |-> -1, k |-> 64, d |-> 0],
+  [n |-> "2^128", s |-> 1, k |-> 128, d |-> 0],
+  [n |-> "2^255", s |-> 1, k |-> 255, d |-> 0],
+  [n |-> "2^256-1", s |-> 1, k |-> 256, d |-> -1],
+  [n |-> "-(2^256-1)", s |-> -1, k |-> 256, d |-> 1] }
 ClassesCore == {
   [n |-> "0", s |-> 0, k |-> 0, d |-> 0],
   [n |-> "1", s |-> 0, k |-> 0, d |-> 1],
